@@ -4,10 +4,13 @@
 //!   vcheck replay <file>
 //! Exit codes: 0 held (known findings only), 1 violation, 2 inconclusive / infrastructure.
 
+mod dbx;
 mod engine;
 mod panics;
 mod props;
 mod scratch;
+mod sqlmodel;
+mod workload;
 
 use engine::*;
 use serde_json::{Value, json};
